@@ -81,6 +81,7 @@ type Tree struct {
 
 	Trace   []Call
 	FaultAt int // 1-based index of the callback that fails; 0 = none
+	NilAt   int // 1-based index of the callback which, if it is a GetValue, returns a nil datum without an error
 	calls   int
 	// Record can be switched off for concurrent use (C06).
 	NoRecord bool
@@ -205,6 +206,11 @@ func (e *Entry) GetValue() (xpath.Datum, error) {
 		c.Err = err.Error()
 		e.T.rec(c)
 		return nil, err
+	}
+	if e.T.NilAt != 0 && e.T.calls == e.T.NilAt {
+		c.Result = "<nil datum, nil error>"
+		e.T.rec(c)
+		return nil, nil
 	}
 	var d xpath.Datum
 	var err error
